@@ -221,7 +221,7 @@ def quick_plans(rng, thorough):
         add("V4R4", stm="2", str="2", sig="typed", layout="classic")
         add("V5R5", stm="3", str="3", sig="typed", layout="classic")
         add("V2R3", keylen=16, sig="typed", layout="classic")
-        add("V4R4", stm="2", str="1", sig="untyped", layout="classic")
+        add("V4R4", stm="2", str="2", sig="untyped", layout="classic")
         add("V1R2", sig="untyped", layout="classic")
     # R6: fixed secrets (memoised extracted results in the quick tier)
     for k, lay in enumerate(("classic", "objstm") if not thorough else ("classic", "objstm", "classic")):
@@ -490,7 +490,7 @@ def leaf_signature(ef, l):
         return SIG_PREFIX + "sig-contents-without-type"
     if cls.startswith("crypt-"):
         form = cls[6:]
-        if form in gen.FORMS_DEFAULTED and form != "noname":
+        if form in gen.FORMS_DEFAULTED and form not in ("noname", "notype-arr"):
             return SIG_PREFIX + "crypt-filter-defaults:" + form
     if l.get("method") == "0" and l["kind"] not in ("s:m", "s:t", "s:g1", "s:g0") and ef.V >= 4 and ef.plan.get("none_style") == "explicit" and "0" in ef.cf.values():
         # the leaf is governed by a crypt filter whose /CFM /None is written out
@@ -527,13 +527,17 @@ def file_signatures(ef):
     if ef.V >= 4 and ef.plan.get("none_style") == "explicit" and "0" in ef.cf.values():
         sigs.append(SIG_PREFIX + "cfm-none-explicit")
     for n, (form, name) in sorted(ef.override.items()):
-        if form in gen.FORMS_DEFAULTED and form != "noname":
+        if form in gen.FORMS_DEFAULTED and form not in ("noname", "notype-arr"):
             sigs.append(SIG_PREFIX + "crypt-filter-defaults:" + form)
     return sigs
 
 
-def first_sig(ef):
+def first_sig(ef, why=""):
+    """signature for an observation on the whole document; `why` (the first difference found) selects the class when it names one"""
     s = file_signatures(ef)
+    f10 = SIG_PREFIX + "sig-contents-without-type"
+    if f10 in s and "/Contents" in why:
+        return f10
     return s[0] if s else ""
 
 
@@ -855,7 +859,10 @@ def cli_part(chk, efs, run, drv, work, rng):
                 bad("exit status %d, the manual says %d" % (rc, want), signature=sig or (first_sig(ef) if (rc == 2 and err and "invalid password" not in err) else ""))
             if so or (se and enc and valid):
                 pass
-            exit_lines.append(("c6job %s %s 0" % ("p" if kind == "requires" else "e", "none" if not enc else ("ok:0" if rc in (3,) or (kind == "isenc" and valid) else "err:password")), rc))
+            # the outcome of opening as observed (a structural failure of a known-finding class is an error other than the password error)
+            tok = "none" if not enc else ("err:damaged" if (rc == 2 and err.strip() and "invalid password" not in err) else
+                                          ("ok:0" if rc == 3 or (kind == "isenc" and valid) else "err:password"))
+            exit_lines.append(("c6job %s %s 0" % ("p" if kind == "requires" else "e", tok), rc))
             continue
         if kind == "show":
             sh = parse_show(so.decode("latin-1"))
@@ -922,8 +929,7 @@ def cli_part(chk, efs, run, drv, work, rng):
             except Exception as e:
                 why = "qpdf JSON unreadable: %r" % e
             if why:
-                s3 = first_sig(ef)
-                bad("--json-output differs from the plaintext document: " + why, signature=s3)
+                bad("--json-output differs from the plaintext document: " + why, signature=first_sig(ef, why))
     # decrypted outputs: strict reader + isomorphism
     sres = filecheck.strict_read(to_strict)
     for path, r, (ef, role, pw, case, kind) in zip(to_strict, sres, strict_meta):
@@ -939,7 +945,7 @@ def cli_part(chk, efs, run, drv, work, rng):
         why = compare_doc(ef, sd.objs, sd.trailer)
         if why:
             chk.violation({"kind": "property-fails-on-implementation", "part": "cli-decrypt", "what": "--decrypt output differs from the plaintext document: " + why,
-                           "case": case}, signature=s3)
+                           "case": case}, signature=first_sig(ef, why))
     # encrypted outputs (default preservation, --copy-encryption): independent decryptor with the known key
     def runner_plain(lines):
         return run(lines, shards=4)
@@ -970,6 +976,8 @@ def cli_part(chk, efs, run, drv, work, rng):
             if why:
                 probs.append("decrypted with the file key it differs from the plaintext document: " + why)
         if probs:
+            if first_sig(ef, " ".join(probs)) == SIG_PREFIX + "sig-contents-without-type":
+                s3 = SIG_PREFIX + "sig-contents-without-type"
             if not s3 and not ef.plan["em"] and any("QVM" in p or "metadata" in p.lower() for p in probs):
                 s3 = SIG_PREFIX + "cleartext-metadata-dict-string"
             chk.violation({"kind": "property-fails-on-implementation", "part": "cli-" + kind, "what": "; ".join(probs)[:900], "case": case}, signature=s3)
